@@ -218,6 +218,7 @@ def _templates():
     add("loc-list-unsorted", [S("v1", "loc_list", ["A"], labels=[5, 1, 3, 2]), S("v2", "cols", ["v1"], cols=["f", "rid"])], tags=("loc",))
     add("loc-list-desc-filter", [S("v1", "loc_list", ["A"], labels=[5, 3, 2, 0]), S("v2", "filter_pred", ["v1"], pred=P("ge", "i", 0))], tags=("loc",))
     add("loc-list-sorted-series", [S("v1", "col", ["A"], col="g"), S("v2", "loc_list", ["v1"], labels=[1, 2, 5])], tags=("loc",))
+    add("loc-slice-reversed", [S("v1", "loc_slice", ["A"], lo=5, hi=2), S("v2", "cols", ["v1"], cols=["f", "k"])], tags=("loc",))
     add("loc-slice-col-scalar", [S("v1", "loc_slice", ["A"], lo=1, hi=None, cols="f")], tags=("loc",))
     add("nested-broadcast-chain", [S("v1", "col", ["A"], col="f"), S("v2", "col", ["A"], col="g"), S("v3", "col", ["A"], col="i"), S("v4", "reduce", ["v2"], how="sum", split_every=None),
                                    S("v5", "reduce", ["v3"], how="sum", split_every=None), S("v6", "scalar_arith", ["v4"], op="add", c=1, r=False), S("v7", "scalar_binop", ["v6", "v5"], op="add"),
